@@ -170,12 +170,7 @@ Proof.
 Qed.
 
 (* ---------- the return route ---------- *)
-(* what a goat server answers to a request that reached it as e' (server.go processUnaryRpc / resetStream /
-   the stream writer): source and destination exchanged, the return route = all but the last hop of the request's
-   route record when that has more than one hop *)
-Definition reply_of (e' : env) (pay : Z) : env :=
-  mkEnv true (e_dst e') (e_src e') []
-        (if Nat.ltb 1 (length (e_rec e')) then Some (removelast (e_rec e')) else None) pay.
+(* [reply_of]: Model/Proxy.v *)
 
 (* C16_return_route: let the proxy forward a request e as e' (so e' carries the request's route record plus this
    proxy's name). The server's reply to e', coming in over the connection attached as the request's destination,
